@@ -68,25 +68,34 @@ deriving Repr
 def bs (s : String) : GoStr := s.toUTF8.toList
 def ch (c : Char) : Nat := c.toNat
 
-def bumpPos (pos : List Nat) (nl : Bool) : List Nat :=
-  let p := match pos with | [] => [1] | p :: ps => (p+1) :: ps
+/-- UTF-16 code units of a rune -/
+def Rune.u16 (r : Rune) : Nat := if r.cp ≥ 0x10000 then 2 else 1
+
+/-- length of a Go string in UTF-16 code units (`utf16Len` of source_map.go) -/
+def utf16Len (s : GoStr) : Nat := ((decodeAll s).map Rune.u16).sum
+
+def bumpPos (pos : List Nat) (nl : Bool) (k : Nat) : List Nat :=
+  let p := match pos with | [] => [k] | p :: ps => (p+k) :: ps
   if nl then 0 :: p else p
 
 def L.next (l : L) : L × Nat :=
   match l.cur.next with
   | (c, none) => ({ l with cur := c, width := 0 }, eof)
   | (c, some r) =>
-    ({ l with cur := c, width := r.width, s := l.s ++ r.enc, pos := bumpPos l.pos (r.cp == 10) }, r.cp)
+    ({ l with cur := c, width := r.width, s := l.s ++ r.enc, pos := bumpPos l.pos (r.cp == 10) r.u16 }, r.cp)
 
 /-- `l.s = l.s[:len(l.s)-n]` -/
 def L.dropS (l : L) (n : Nat) : L :=
   if l.s.length < n then { l with panic := true } else { l with s := l.s.take (l.s.length - n) }
 
+/-- `backup` on `pos`: pop an empty last line, then take off the code units of the rune (a rune
+of four bytes is a surrogate pair) -/
 def unbumpPos (l : L) : L :=
+  let k := if l.width = 4 then 2 else 1
   match l.pos with
-  | 0 :: p :: ps => { l with pos := (p - 1) :: ps }
+  | 0 :: p :: ps => { l with pos := (p - k) :: ps }
   | 0 :: [] => { l with panic := true }
-  | p :: ps => { l with pos := (p - 1) :: ps }
+  | p :: ps => { l with pos := (p - k) :: ps }
   | [] => { l with panic := true }
 
 def L.backup (l : L) : L :=
@@ -153,6 +162,11 @@ def L.skipAhead (l : L) (n : Nat) : L := (nextN n l).ignore
 
 def countNl (s : GoStr) : Nat := s.count 10
 
+/-- the part of the pending literal that lies on its first line (including the `\n`) -/
+def firstLine : GoStr → GoStr
+  | [] => []
+  | b :: rest => if b == 10 then [b] else b :: firstLine rest
+
 /-- `position()`: line and column of the start of the pending literal. -/
 def L.position (l : L) : Option (Int × Int) :=
   let nl := countNl l.s
@@ -161,7 +175,7 @@ def L.position (l : L) : Option (Int × Int) :=
   let line : Int := len - nl
   match l.pos[nl]? with
   | none => none
-  | some p => some (line, 1 + (p : Int) - (l.s.length : Int))
+  | some p => some (line, 1 + (p : Int) - ((utf16Len (firstLine l.s) : Nat) : Int))
 
 def L.emit (l : L) (t : TT) : L :=
   match l.position with
@@ -181,7 +195,7 @@ deriving Repr, DecidableEq
 
 /-- Error-message classes (an enumeration, so that proofs never look inside string literals). -/
 inductive EMsg where
-  | attributeNameExpected | attributeNameNotClosedEof | attributeValueNotClosedEof | childrenCommandDoesNotAccept | commandCodeExpected | dynamicTextValueWasNot | filterNameExpected | importExpected | objectReferenceNotClosedEof | packageNameExpected | renderArgumentExpected | selfclosingTagsCantHaveContent | templateDeclarationIsIncomplete | templatesMustBeIndented | theLineWasIndentedN | theLineWasIndentedUsing | unexpectedCharacter | unknownAttributeCommand | unknownFilter | identifierExpected (t : TT)
+  | attributeNameExpected | attributeNameNotClosedEof | attributeValueNotClosedEof | childrenCommandDoesNotAccept | commandCodeExpected | dynamicTextValueWasNot | filterNameExpected | importExpected | objectReferenceNotClosedEof | packageNameExpected | renderArgumentExpected | selfclosingTagsCantHaveContent | templateDeclarationIsIncomplete | templatesMustBeIndented | theLineWasIndentedN | theLineWasIndentedUsing | unexpectedCharacter | unknownAttributeCommand | unknownFilter | unknownCommand | identifierExpected (t : TT)
 deriving Repr, DecidableEq
 
 def EMsg.text : EMsg → String
@@ -204,6 +218,7 @@ def EMsg.text : EMsg → String
   | .unexpectedCharacter => "unexpected character"
   | .unknownAttributeCommand => "unknown attribute command"
   | .unknownFilter => "unknown filter"
+  | .unknownCommand => "unknown command"
   | .identifierExpected t => t.name ++ " identifier expected"
 
 def errLit (m : EMsg) : GoStr := bs m.text
@@ -356,13 +371,16 @@ def lexTemplate (l : L) : L × St :=
   let l := l.acceptUntil Gen.lexTemplate_acceptUntil0
   if l.s == kwGoht then (l, .gohtStart) else (l, .halt)
 
-def lexGohtStart (l : L) : L × St :=
+/-- the first half of `lexGohtStart`: capture the declaration up to its closing parenthesis -/
+def gohtStartSig (l : L) : Sum L L :=
   let l := l.ignore
+  let l := { l with indent := 0 }
   let l := l.skipRun Gen.lexGohtStart_skipRun0
   let l := l.acceptUntil Gen.lexGohtStart_acceptUntil0
-  let lo : Sum L L :=
-    if hasPrefix l.s [40] then gohtStartLoop (l.cur.rest.length + 2) (l.next).1 else .inl l
-  match lo with
+  if hasPrefix l.s [40] then gohtStartLoop (l.cur.rest.length + 2) (l.next).1 else .inl l
+
+def lexGohtStart (l : L) : L × St :=
+  match gohtStartSig l with
   | .inr l => l.errorf .templateDeclarationIsIncomplete
   | .inl l =>
     let l := (l.next).1
@@ -653,7 +671,7 @@ def lexGohtCommandCode (l : L) : L × St :=
     let l := l.acceptUntil Gen.lexGohtCommandCode_acceptUntil2
     if !l.s.isEmpty then l.errorf .childrenCommandDoesNotAccept
     else ((l.emit .childrenCommand).skipRun Gen.lexGohtCommandCode_skipRun1, .gohtLineStart)
-  else (l.skipRun Gen.lexGohtCommandCode_skipRun1, .gohtLineStart)
+  else l.errorf .unknownCommand
 
 def lexFilterStart (l : L) : L × St :=
   let l := l.skipRun Gen.lexFilterStart_skipRun0
